@@ -75,6 +75,12 @@ def Dom (name : String) (pos : Nat) (x : Nat → ℝ) : Prop :=
   else if name = "fdiv" ∨ name = "fmod" then x 1 ≠ 0 ∧ ∀ n : ℤ, x 0 / x 1 ≠ n
   else True
 
+/-- the function names whose real meaning is fixed by `sem1`/`sem2`/`SE.sem` and whose table rows are proved -/
+def provedNames : List String :=
+  ["sin", "cos", "tan", "arcsin", "arccos", "arctan", "exp", "log", "sinh", "cosh", "tanh", "arctanh", "arctan2", "min", "max",
+   "reciprocal", "negative", "sqrt", "abs", "power:3", "power:5/2", "power:-2", "divide", "subtract", "powvar",
+   "inv", "pow", "sign", "floor", "not", "less", "greater", "equal", "fdiv", "fmod"]
+
 @[simp] theorem upd_same (x : Nat → ℝ) (i : Nat) (t : ℝ) : Function.update x i t i = t := by simp
 theorem upd_01 (x : Nat → ℝ) (t : ℝ) : Function.update x 0 t 1 = x 1 := by simp [Function.update]
 theorem upd_10 (x : Nat → ℝ) (t : ℝ) : Function.update x 1 t 0 = x 0 := by simp [Function.update]
